@@ -120,6 +120,34 @@ def run(ctx):
     for n in ((70, 130) if q else (70, 130, 200, 400)):
         faults.append({"tag": "widefault", "files": 2, "recs": n, "fault": {"phase": "none", "file": 0, "rec": 0}, "ok": False,
                        "visible": [], "stored": [], "failedfile": 0})
+    # SIZE: all-or-nothing and "every record of every file is queryable" do not depend on how long a line, a label
+    # value or a file is.  One file of an upload of 1-3 files carries a result line / noise line of that many bytes,
+    # a configuration value / sub-name part of that many bytes, or that many bytes of ordinary content; lengths on
+    # both sides of every power of two from 4 KiB to 1 MiB (line scanner buffers, column widths) and of 1..32 (128) MiB
+    # (body and file limits).  The server may accept or refuse the large ones, but atomically (see upBig).
+    line_lens = [100, 4095, 4096, 4097, 8191, 8192, 8193, 16383, 16384, 16385, 32767, 32768, 32769, 40000, 65000, 65534, 65535,
+                 65536, 65537, 70000, 131071, 131072, 131073, (1 << 20) - 1, 1 << 20, (1 << 20) + 1, 3 << 20]
+    file_lens = [300000, 1 << 20, (4 << 20) + 1, (8 << 20) - 3000, (8 << 20) + 1, 10000000, (16 << 20) + 1, (32 << 20) + 1]
+    if not q:
+        file_lens += [(64 << 20) + 1, (128 << 20) + 1]
+    nb = 0
+    for kind in ("metric", "noise", "config", "name", "namekv"):
+        for n in line_lens:
+            nb += 1
+            faults.append({"tag": "big", "kind": kind, "len": n, "files": 1 + (nb + ctx.seed) % 3, "pos": nb % 3, "local": nb % 2 == 0,
+                           "fault": {"phase": "none", "file": 0, "rec": 0}, "ok": True, "visible": [], "stored": [], "failedfile": 0})
+    for n in file_lens:
+        nb += 1
+        faults.append({"tag": "big", "kind": "bigfile", "len": n, "files": 3 if n < (40 << 20) else 2, "pos": nb % 3, "local": True,
+                       "fault": {"phase": "none", "file": 0, "rec": 0}, "ok": True, "visible": [], "stored": [], "failedfile": 0})
+    ctx.cov["large_input_cases"] = {"line_or_value_lengths": line_lens, "file_sizes": file_lens, "cases": nb}
+    # LONG HISTORY: many uploads to one server, two in five failing in different ways; after every step exactly the
+    # successful ones are visible and IDs grow numerically without reuse past .9/.10, .99/.100 (thorough .999/.1000)
+    hist = [12, 30, 130] if q else [12, 30, 130, 400, 1100]
+    for n in hist:
+        faults.append({"tag": "history", "files": 2, "recs": n, "fault": {"phase": "none", "file": 0, "rec": 0}, "ok": True,
+                       "visible": [], "stored": [], "failedfile": 0})
+    ctx.cov["long_histories"] = hist
     ctx.add_samples([faults[len(faults) // 2], ids[len(ids) // 2]], 2)
     ctx.replay("upload", faults, "single-fault scenarios against the /upload handler", timeout=3000)
     evp = os.path.join(ctx.work, "id-events.ndjson")
